@@ -55,6 +55,9 @@ const (
 	// DataChannelTimeout is how long the client will wait for the OnOpen callback
 	// on a newly created DataChannel.
 	DataChannelTimeout = 10 * time.Second
+	// streamCloseTimeout is how long closing a SnowflakeConn waits for the
+	// session to take the stream's FIN before it tears the session down anyway.
+	streamCloseTimeout = 2 * time.Second
 
 	// WindowSize is the number of packets in the send and receive window of a KCP connection.
 	WindowSize = 65535
@@ -227,7 +230,21 @@ type SnowflakeConn struct {
 // The collection of snowflake proxies for this connection is stopped.
 func (conn *SnowflakeConn) Close() error {
 	log.Printf("---- SnowflakeConn: closed stream %v ---", conn.ID())
-	conn.Stream.Close()
+	// Closing the stream sends a FIN and waits until the session has taken
+	// it. A session that cannot send at the moment (no snowflake, send window
+	// full) would keep us here, still collecting snowflakes, until its
+	// keepalive timeout. Do not wait for that: closing the session below
+	// releases a FIN that is still pending.
+	streamClosed := make(chan struct{})
+	go func() {
+		conn.Stream.Close()
+		close(streamClosed)
+	}()
+	select {
+	case <-streamClosed:
+	case <-time.After(streamCloseTimeout):
+	}
+	defer func() { <-streamClosed }()
 	log.Printf("---- SnowflakeConn: end collecting snowflakes ---")
 	conn.snowflakes.End()
 	conn.pconn.Close()
